@@ -1907,3 +1907,16 @@ package moss
 //@   ensures @totals err == nil ==> rv.TotOpsSet == ptrOf(s, "*segment").totOperationSet && rv.TotOpsDel == ptrOf(s, "*segment").totOperationDel &&
 //@       rv.TotKeyByte == ptrOf(s, "*segment").totKeyByte && rv.TotValByte == ptrOf(s, "*segment").totValByte
 //@   loop 1: invariant kvsPos % StorePageSize == 0 && bufPos % StorePageSize == 0 && kvsPos >= pos && bufPos >= kvsPos + len(kvsBuf) && len(kvsBuf) == len(seg.kvs) * 8 && seg == ptrOf(s, "*segment")
+
+// ---- the merger only sleeps when there is nothing to merge (C20, C04) ---------------------------------------------------
+// The merger may wait for incoming batches only when the top section holds
+// nothing anywhere in its tree of child stacks: a batch that touches only
+// child collections has no top-level segment but is work all the same (S25).
+//@ func receivePings$loops
+//@   loop 1: invariant true
+//@ func (m *collection) mergerWaitForWork(pings []ping) (stopped, mergeAll bool, pingsOut []ping)
+//@   props C20 C04 C01
+//@   attr obligations region
+//@   requires m != nil && m.stats != nil && !held(m.m)
+//@   modifies *
+//@   unlock 1: @noSleepWithWork !treeEmpty(m.stackDirtyTop) ==> m.waitDirtyIncomingCh == atAcquire(m.waitDirtyIncomingCh)
